@@ -69,7 +69,7 @@ def gen_entry(rng, txs, kinds=None, orf_order='mixed', allow_alt=True, var_kinds
     kinds = kinds or ['base', 'base', 'base', 'base_orf', 'novel', 'alt', 'circ', 'circ', 'fusion', 'fusion']
     kind = rng.choice(kinds)
     tx, gene, coding = rng.choice(txs)
-    idx = rng.randint(1, 12)
+    idx = rng.choice([1, 1, 2, 3, 5, 9, 10, 11, 12, 21, 25, 113])
     def vids(n_lo, n_hi, alt_ok=True):
         ks = var_kinds or ['SNV', 'SNV', 'INDEL', 'MNV', 'RES', 'SE', 'RI', 'A5SS', 'MXE']
         out = [gen_variant_id(rng, rng.choice(ks)) for _ in range(rng.randint(n_lo, n_hi))]
@@ -99,7 +99,11 @@ def gen_entry(rng, txs, kinds=None, orf_order='mixed', allow_alt=True, var_kinds
     if kind == 'circ':
         # CIRCexplorerParser: f"CIRC-{tx_id}-{start_gene}:{end_gene}"; the circRNA caller never assigns ORF ids
         a = rng.randint(0, 500)
-        cid = 'CIRC-%s-%d:%d' % (tx, a, a + rng.randint(20, 400))
+        if rng.random() < 0.7:
+            cid = 'CIRC-%s-%d:%d' % (tx, a, a + rng.randint(20, 400))
+        else:
+            # circularised intron (intron lariat): VariantPrefix.CI, 'CI-<tx>-I<n>' (moPepGen/fake.py, is_circ_rna())
+            cid = 'CI-%s-I%d' % (tx, rng.randint(1, 6))
         vs, alts = vids(0, 2) if rng.random() < 0.6 else ([], [])
         vs = [v for v in vs if not is_splice_id(v)]
         body = vs + alts
@@ -140,3 +144,16 @@ def gen_header(rng, txs, n=None, **kw):
         if len(out) == n:
             break
     return out
+
+
+def near_duplicate(rng, e):
+    """an entry textually related to e: the same label with the index cut to its first digit (|11 -> |1: a
+    substring of e's text), the same label with a longer index (e's text is a substring of it), or e itself"""
+    d = dict(e)
+    head, _, idx = e['text'].rpartition('|')
+    r = rng.random()
+    if len(idx) >= 2 and r < 0.6:
+        d['text'] = head + '|' + idx[0]
+    elif r < 0.8:
+        d['text'] = head + '|' + idx + str(rng.randint(0, 9))
+    return d
